@@ -143,6 +143,9 @@ def correspondence(ctx):
         elif f['op'] == 'pow3' and f['place'] in ('right', 'both') and f['a'] in ('int', 'bool', 'float'):
             key = 'three-argument-pow-with-proxied-exponent'
             why = None
+        elif f['op'] == 'pow3mod' and f['place'] == 'right':
+            key = 'three-argument-pow-with-proxied-modulus'
+            why = None
         elif f['op'] == 'contains' and f['a'] == 'str' and f['place'] == 'right':
             key = 'proxied-needle-in-plain-str'
             why = None
